@@ -264,7 +264,11 @@ impl<const N: u32> PxE2<{ N }> {
                     frac_z = 0;
                 }
 
-                exp_z <<= 28 - reg_z;
+                if reg_z <= 28 {
+                    exp_z <<= 28 - reg_z;
+                } else {
+                    exp_z >>= reg_z - 28;
+                }
 
                 let mut u_z = Self::pack_to_ui(regime, exp_z as u32, frac_z);
 
